@@ -40,12 +40,13 @@ CLAIMED['C02'] = dict(
          'assumed IEEE pack/unpack functions (byte order, width), FixedPoint/Angle over reals against trunc(v*2^n) / '
          'round(256*(v mod 360)/360) mod 256 using the S3 contracts of their carriers (not their bodies), byte arrays/String/'
          'UUID with symbolic-length payload blobs (prefix = spec length encoding, payload unchanged, inverse, truncation '
-         'inside the payload raises), PrefixedArray for every fixed length 0..3 incl. nesting and context dispatch, '
-         'Type dispatch on class and instance.',
+         'inside the payload raises), PrefixedArray at byte level for every fixed length 0..3 incl. nesting and context dispatch and, '
+         'for arrays of ANY length (symbolic n, abstract length/element types, for-loop and comprehension invariants): length '
+         'first, then exactly n elements in order, once each, same socket/context; Type dispatch on class and instance.',
     note='Trusted: struct pack/unpack contract incl. IEEE-754 for f/d (opaque functions), utf-8 and uuid.UUID inverse-pair '
          'contracts, floats as reals in FixedPoint/Angle (bounded IEEE stand-in alongside: 1/64-degree angle grid, all 256 '
-         'angle bytes, independent IEEE encoder), PrefixedArray only for lengths 0..3 at proof level (longer arrays: bounded), '
-         'pynbt (NBT) not covered.',
+         'angle bytes, independent IEEE encoder), byte-level array proofs for lengths 0..3 (any length: structural proof with '
+         'abstract element types), pynbt (NBT) not covered.',
     design='§6 C02')
 
 CLAIMED['C06'] = dict(
